@@ -778,6 +778,13 @@ def _gen_simplifier(rng, tier):
 def cases(rng, tier, shard, nshards):
     total = META['quick_cases'] if tier == 'quick' else META['thorough_cases']
     count = shard_count(total, shard, nshards)
+    if shard == 0:
+        # one point set longer than 65 536 points whose length is not a multiple of any power-of-two block
+        n = int(rng.integers(66000, 90000)) | 1
+        x = np.arange(n, dtype=float)
+        pts = np.ascontiguousarray(np.column_stack((x, 500.0 + 100.0 * np.sin(x / 977.0) + (x > 0.9 * n) * 40.0)))
+        yield {'kind': 'dist', 'points': pts, 'a': pts[0].copy(), 'b': pts[-1].copy(), 'seg': 'chord', 'src': 'very-long',
+               'layout': 'C', 'ab_layout': 'C', 'left': 0, 'right': n - 1}
     for _ in range(count):
         kind = KINDS[int(rng.choice(len(KINDS), p=KIND_P))]
         if kind == 'dist':
